@@ -517,7 +517,8 @@ func (p *Proof) frameGoal(k string, fin *Term) *Term {
 	if allowedHere == tTrue {
 		return True()
 	}
-	return Forall([]*Term{r}, Implies(BVUlt(r, p.heapTop0), Or(allowedHere, unchanged)))
+	// reference 0 (nil) denotes no object: what a model stores there is immaterial
+	return Forall([]*Term{r}, Implies(And(BVUlt(r, p.heapTop0), Neq(r, BVInt(0, 64))), Or(allowedHere, unchanged)))
 }
 
 func (p *Proof) frameClauses(st *State, eff *effects) []frameClause {
